@@ -59,14 +59,15 @@ Theorem C09_exact_follow_partial :
 Proof. exact stmt_exact_follow. Qed.
 Print Assumptions C09_exact_follow_partial.
 
-(* N1: a tree, a configuration with follow_links and two schedulers: one reports /d/f (so it is selected,
-   C09_sound), the other (LIFO = rayon with one thread) loses it. *)
+(* N1 (class: follow_links = true): a tree, a configuration with follow_links and two schedulers: one
+   reports /d/f, which is selected, the other (LIFO = rayon with one thread) loses it — so the
+   conclusion of C09_exact fails for the second scheduler. *)
 Theorem C09_N1_witness :
   exists t c roots s1 s2 l1 l2 x,
     c_follow c = true /\ conservative all_true all_true /\
     walk all_true all_true no_ign t c s1 roots = Done l1 /\
     walk all_true all_true no_ign t c s2 roots = Done l2 /\
-    In x l1 /\ ~ In x l2.
+    In x l1 /\ selected all_true all_true no_ign t c false roots x /\ ~ In x l2.
 Proof. exact stmt_N1. Qed.
 Print Assumptions C09_N1_witness.
 
